@@ -202,6 +202,9 @@ func (enc Encryptor) EncryptZero(ct interface{}) (err error) {
 		return enc.encryptZeroSk(key, ct)
 	case *PublicKey:
 		if cti, isCt := ct.(*Ciphertext); isCt && enc.params.PCount() == 0 {
+			if cti.Degree() < 1 {
+				return fmt.Errorf("cannot EncryptZero: a public-key encryption requires a ciphertext of degree at least 1")
+			}
 			return enc.encryptZeroPkNoP(key, cti.Element)
 		}
 		return enc.encryptZeroPk(key, ct)
@@ -230,6 +233,17 @@ func (enc Encryptor) encryptZeroPk(pk *PublicKey, ct interface{}) (err error) {
 
 	if ctCt, isCiphertext := ct.(*Ciphertext); isCiphertext {
 		ct = ctCt.Element
+	}
+
+	switch ct := ct.(type) {
+	case Element[ring.Poly]:
+		if ct.Degree() < 1 {
+			return fmt.Errorf("cannot EncryptZero: a public-key encryption requires a ciphertext of degree at least 1")
+		}
+	case Element[ringqp.Poly]:
+		if ct.Degree() < 1 {
+			return fmt.Errorf("cannot EncryptZero: a public-key encryption requires a ciphertext of degree at least 1")
+		}
 	}
 
 	var levelQ, levelP int
